@@ -382,6 +382,9 @@ def run(ctx):
         else:
             if (rec['ret'] >= 0) != (ref_ret >= 0) or (rec['ret'] >= 0 and rec['ret'] != ref_ret):
                 ctx.violation('modes-disagree', '%s output returned %d, reference growing buffer returned %d: %s' % (mode, rec['ret'], ref_ret, what), replay_of(c, p, line)); return True
+        if rec['ret'] >= 0 and rec['ok'] == 2:
+            ctx.violation('finalize-terminator', 'flatcc_json_printer_finalize_dynamic_buffer returned a block of the right bytes and length whose terminating zero at result[length] is missing or outside the block: ' + what,
+                          replay_of(c, p, line)); return True
         if rec['ret'] >= 0 and not rec['ok']:
             ctx.violation('modes-disagree', 'success reported but the bytes / length / terminator differ from the growing-buffer output: ' + what, replay_of(c, p, line)); return True
         return False
